@@ -30,6 +30,8 @@ DIMS = [
     ('before', ['nothing', 'want', 'multiline']),
     # what follows the closing quotes on their line
     ('closer', ['plain', 'comment', 'comment_apostrophe', 'comment_dquote']),
+    # shape of the def / class header above the docstring
+    ('sig', ['plain', 'multiline', 'annot', 'comment_after_colon', 'multiline_deco']),
 ]
 STYLES = ['auto', 'google', 'freeform']
 
@@ -99,10 +101,37 @@ def build(cfg):
         w.emit('    return f')
         w.emit('')
         w.emit('')
+        w.emit('def deco1(*a):')
+        w.emit('    return deco0')
+        w.emit('')
+        w.emit('')
         w.emit('def boom():')
         w.emit("    raise ValueError('x')")
         w.emit('')
         w.emit('')
+    sig = cfg.get('sig', 'plain')
+
+    def emit_deco(pad):
+        if sig == 'multiline_deco':
+            w.emit(pad + '@deco1(1,')
+            w.emit(pad + '       2)')
+        else:
+            w.emit(pad + '@deco0')
+
+    def emit_header(pad, head, args):
+        if sig == 'multiline' and head.startswith('class'):
+            w.emit(pad + head + '(' + args + ',')
+            w.emit(pad + '        ):')
+        elif sig == 'multiline':
+            w.emit(pad + head + '(' + args + ',')
+            w.emit(pad + '        *a,')
+            w.emit(pad + '        **k):')
+        elif sig == 'annot' and not head.startswith('class'):
+            w.emit(pad + head + '(self: "T" = None) -> "dict[str, int]":')
+        elif sig == 'comment_after_colon':
+            w.emit(pad + head + '(' + args + '):  # a comment: with a colon')
+        else:
+            w.emit(pad + head + '(' + args + '):')
     if nest != 'module':
         header()
     if cfg['pre'] == 'blank2':
@@ -114,19 +143,19 @@ def build(cfg):
         I = ''
     elif nest in ('func', 'asyncfunc'):
         for i in range(cfg['decos']):
-            w.emit('@deco0')
-        w.emit(('async def' if nest == 'asyncfunc' else 'def') + ' f(self=None):')
+            emit_deco('')
+        emit_header('', ('async def' if nest == 'asyncfunc' else 'def') + ' f', 'self=None')
         I = '    '
     elif nest == 'method':
         w.emit('class K(object):')
         for i in range(cfg['decos']):
-            w.emit('    @deco0')
-        w.emit('    def f(self=None):')
+            emit_deco('    ')
+        emit_header('    ', 'def f', 'self=None')
         I = '        '
     elif nest == 'cls':
         for i in range(cfg['decos']):
-            w.emit('@deco0')
-        w.emit('class K(object):')
+            emit_deco('')
+        emit_header('', 'class K', 'object')
         I = '    '
     # docstring opener
     if opener == '"""Summary':
@@ -355,5 +384,5 @@ class LinenoSpec(Spec):
 
 def specs(tier):
     if tier == 'thorough':
-        return [LinenoSpec('layouts-all', 99)]
-    return [LinenoSpec('layouts-cost<=4', 4)]
+        return [LinenoSpec('layouts-cost<=5', 5)]
+    return [LinenoSpec('layouts-cost<=3', 3)]
